@@ -45,6 +45,9 @@ def run(ctx):
     from . import c12
     for sc_ in prog.subclasses('StreamInterface'):
         c12.r123_seed_wiring(ctx, sc_)
+        # "the same seed gives the same numbers": the generator a stream was seeded on is the one it draws from, also for a copy of the stream
+        # (shared rule with C07 / C12)
+        c12.r121_private_generator(ctx, sc_)
     from ..statrules import memo_soundness
     memo_soundness(ctx, 'R13.8', ['streams'])
     r139_virtual_fallback(ctx)
